@@ -767,7 +767,11 @@ where
         // visitor.visit_byte_buf(self.parse_byte_buf()?)
         match self.non_native_type {
             None => visitor.visit_byte_buf(self.parse_binary()?),
-            Some(NonNativeType::LazyValue) => self.reader.forward_read_byte_buf(visitor),
+            Some(NonNativeType::LazyValue) => {
+                // The announcement is for this value only
+                self.non_native_type = None;
+                self.reader.forward_read_byte_buf(visitor)
+            }
             _ => unreachable!("Only Binary and LazyValue are expected in deserialize_byte_buf"),
         }
     }
@@ -865,8 +869,13 @@ where
             // on descriptor will visit String instead of str
             self.deserialize_string(visitor)
         } else if name == SYMBOL_REF {
+            // `deserialize_str` reads strings and symbols alike and does not look at the
+            // marker; leaving it set would make the value after this one a "symbol ref" too
+            // (a binary that follows then hits the unreachable arm of deserialize_byte_buf)
             self.non_native_type = Some(NonNativeType::SymbolRef);
-            self.deserialize_str(visitor)
+            let result = self.deserialize_str(visitor);
+            self.non_native_type = None;
+            result
         } else if name == DECIMAL32 {
             self.non_native_type = Some(NonNativeType::Dec32);
             self.deserialize_bytes(visitor)
